@@ -21,6 +21,9 @@ CLAIMED = {
     'C01': ('4 C01', 'TLC model checking of the session state machine spec/Dictable.tla (heap of tables, registers, one action per public call; invariants and action properties) + replay of every TLC behaviour (exhaustive to depth 2, simulated to depth 6/10) into real dictables with the abstract state compared after the history',
             'Every call sequence TLC explores is executed on real dictable objects; all live tables are projected through column lists, len, shape, iteration, d[i][c] and d[c][i] and must equal the state of the specification, including which registers alias one object; operands of allocating calls and rejected assignments are thereby checked to be unchanged.',
             'Trusted: TLC, harness/enc.py, the replay adapter in props/c01.py (one public call per action, spellings rotate). Column order is not modelled.'),
+    'C14': ('4 C14', 'TLC model checking that the law-level EqSpec is a type-strict equivalence (MC_Eq: all pairs as states, third value quantified) and of two mechanism models of eq (MC_EqMech) + every TLC-enumerated pair and in_ case realised in Python (S2C) + the full observed eq matrix over ~460 concrete values and their structural copies judged cell by cell by the TLA+ trace specification Trace_Eq (boolean, copies, symmetry, transitivity against every third value, pinned answers)',
+            "Equivalence axioms are checked by TLC on every pair/triple of the observed matrix of the real eq; the answers the statement pins (copies equal, container/shape/cell mismatch unequal, agreement with == on plain values) are decided by the specification's Pin; in_ is membership over the observed matrix.",
+            'Trusted: TLC, harness/x_eqval.py (realise/project of descriptors). np.datetime64 vs datetime/Timestamp of one instant and equal-cells-other-dtype carriers are left unpinned (named deviations).'),
 }
 PENDING_REASON = 'check not built yet in this round (planned, see DESIGN.md section 4); not claimed until its specification and conformance harness exist'
 
